@@ -2,16 +2,23 @@ import ColaVerif.DriverLib
 import ColaVerif.Model.DiagTrace
 import ColaVerif.Model.DiagTraceDtype
 import ColaVerif.Model.DiagTraceSel
+import ColaVerif.Model.DiagTraceReach
 
 /-!
 Line-protocol driver of C08 (`cola.linalg.diag`, `cola.linalg.trace`).
 Case: `{"id":…, "call":"diag"|"trace"|"exactdiag", "op":…, "k":int, "alg":"omitted"|"auto"|"exact", "bs":nat?}`
 (`bs` = the constant of `bs = min(100, n)`, default 100; `exactdiag` runs the probing loop
 directly, whatever the class of the operator).
-Answer: code model (`{"ok":[…]}` / `{"err":class}`), specification (the diagonal / trace of
-`den`), `wf`, the named clauses the case violates, a magnitude bound;
+Answer: code model (`{"ok":[…]}` / `{"err":e}`; `e` = `error:<Class>`: the real call raises `<Class>`, or an
+escape value `unmodelled:hutch` / `unmodelled:nonsquare-exact`: the model does not say), specification (the
+diagonal / trace of `den`), `wf`, `square`, `clauses` = `Op.clauses` (C01's recorded `sliced-repeated-index`, C05's
+`scalar-times-annotated`: hypotheses of the value theorems; C08 has no value clause of its own — the
+BlockDiag / Kronecker rules refuse non-square members since /repo bbee7eb), `hutch` = `Op.hutchReach` (the
+decidable input predicate under which `unmodelled:hutch` can occur, see `C08_refusals_are_exceptions`), a
+magnitude bound;
 result dtype: `cdt` = the code model (`Op.diagDt` / `Op.traceDt` / `Op.exactDiagDt`), `sdt` = the
-specification (`Op.dtypeSpec`, promotion of the leaf dtypes), `dtclauses` = the dtype clauses violated;
+specification (`Op.dtypeSpec`, promotion of the leaf dtypes), `dtclauses` = the dtype clause violated
+(`bdiag-zero-multiplicity` iff `Op.ruleZeroMult`; it concerns the dtype observation only);
 rule selection: `drules` / `trules` = the method the model applies for an algorithm object of class
 Auto, Exact, Hutch, HutchPP (in this order).
 `{"call":"rules"}` (no operator) answers with the model's rule tables; `"call":"dtype"` items answer
@@ -84,7 +91,7 @@ def handle (j : Json) : E String := do
   let nospec := match j.getObjVal? "nospec" with
     | .ok (.bool b) => b
     | _ => false
-  let pre0 := s!"\"id\":{id.compress},\"rows\":{A.rows},\"cols\":{A.cols},\"dtype\":\"{A.dtype.toString}\",\"wf\":{A.wf},\"square\":{sq},\"clauses\":{showStrs cl},\"cls\":\"{A.className}\",\"drule\":\"{A.diagRuleClass}\",\"trule\":\"{A.traceRuleClass}\",\"sdt\":\"{A.dtypeSpec.toString}\",\"dtclauses\":{showStrs dtcl},\"drules\":{showStrs (algs.map (fun a => Op.diagRuleSig a A))},\"trules\":{showStrs (algs.map (fun a => Op.traceRuleSig a A))}"
+  let pre0 := s!"\"id\":{id.compress},\"rows\":{A.rows},\"cols\":{A.cols},\"dtype\":\"{A.dtype.toString}\",\"wf\":{A.wf},\"square\":{sq},\"hutch\":{A.hutchReach},\"clauses\":{showStrs cl},\"cls\":\"{A.className}\",\"drule\":\"{A.diagRuleClass}\",\"trule\":\"{A.traceRuleClass}\",\"sdt\":\"{A.dtypeSpec.toString}\",\"dtclauses\":{showStrs dtcl},\"drules\":{showStrs (algs.map (fun a => Op.diagRuleSig a A))},\"trules\":{showStrs (algs.map (fun a => Op.traceRuleSig a A))}"
   let D : Option (MatV GRat) := if nospec then none else some A.den
   let pre := if nospec then pre0 else
     let absD := A.absOp.den
